@@ -342,7 +342,14 @@ impl<const N: usize> EventsInner<N> {
                 if event_number == 1 {
                     EVENT_NUMBER_EPOCH_SIZE
                 } else {
-                    event_number.wrapping_add(EVENT_NUMBER_EPOCH_SIZE).max(1)
+                    // The stored value is where a restart resumes, and a resumed
+                    // number only gets its own epoch written if it is an epoch
+                    // start itself. So past the top of the range the next epoch
+                    // start is the first one again - not the wrapped sum, which a
+                    // restart would resume from (and hand out again) unwritten.
+                    event_number
+                        .checked_add(EVENT_NUMBER_EPOCH_SIZE)
+                        .unwrap_or(EVENT_NUMBER_EPOCH_SIZE)
                 },
             )?;
         }
